@@ -2275,7 +2275,7 @@ def _verify_dominances_hyperparameters(dominances, dominance_type,
                        "Seeing dominant_dim %s and weak_dim %s" %
                        (dominance_type.capitalize(), dominant_dim, weak_dim))
     for dim in [dominant_dim, weak_dim]:
-      if monotonicities[dim] != 1:
+      if monotonicities is None or monotonicities[dim] != 1:
         raise ValueError("%s dominance constraint's dimensions must be "
                          "monotonic. Dimension %d is not monotonic." %
                          (dominance_type.capitalize(), dim))
@@ -2387,7 +2387,7 @@ def verify_hyperparameters(lattice_sizes,
     if not isinstance(main_dim, int) or not isinstance(cond_dim, int):
       raise ValueError("Trust constraint dimensions must be integers. Seeing "
                        "main_dim %s and cond_dim %s" % (main_dim, cond_dim))
-    if monotonicities[main_dim] != 1:
+    if monotonicities is None or monotonicities[main_dim] != 1:
       raise ValueError("Trust constraint's main feature must be "
                        "monotonic. Dimension %s is not monotonic." % (main_dim))
     if (main_dim, cond_dim) in dim_pairs_direction and dim_pairs_direction[
